@@ -6,6 +6,7 @@ package main
 // characters and recognises exactly the intended first byte.
 
 import (
+	"sort"
 	"fmt"
 	"go/token"
 	"strings"
@@ -238,7 +239,124 @@ func ruleRootDispatch(c *Ctx) {
 			}
 		}
 		l.stat("R-ROOTDISPATCH").Extra[b.Name+"_functions_with_byte_parameters"] = nParams
+		b.nodeTextDispatch(l)
 	}
+}
+
+// nodeTextDispatch: the same question for the text held by a node. A node
+// built directly over a caller's bytes (the operands of Equal) carries the
+// caller's leading whitespace; a node whose text was delimited by the decoder
+// (members, elements, the members of an operation) does not. Nodes are not
+// distinguished by origin, so as soon as one construction site can produce a
+// padded node, no function may classify a node by a fixed-offset byte of its
+// raw text — except for the value of an operation, which only the decoder
+// produces.
+func (b *Body) nodeTextDispatch(l *Ledger) {
+	if b.Name != "v5" {
+		return
+	}
+	var paddedSites []string
+	for _, fn := range b.exportedAPI(b.Lib) {
+		for _, p := range fn.Params {
+			if !isByteSlice(p.Type()) {
+				continue
+			}
+			t := taintClosure(fn, []ssa.Value{p}, &taintOpts{callResult: func(ci ssa.CallInstruction, _ []int) bool {
+				f := ci.Common().StaticCallee()
+				if f == nil {
+					return false
+				}
+				switch stdName(f) {
+				case "bytes.TrimSpace":
+					return false
+				}
+				// only the library's own constructors carry the bytes on
+				return f.Pkg == b.Lib && canCarryData(ci.Value().Type()) && len(f.Params) == 1
+			}})
+			allInstrs(fn, func(i ssa.Instruction) {
+				call, ok := i.(*ssa.Call)
+				if !ok {
+					return
+				}
+				if t[call] && isPtrToNamed(call.Type(), "lazyNode") {
+					paddedSites = append(paddedSites, fname(fn)+"("+p.Name()+") at "+b.posOf(call))
+				}
+			})
+		}
+	}
+	sort.Strings(paddedSites)
+	structural := map[int64]bool{}
+	for _, c := range []byte("{[\"-0123456789tfn") {
+		structural[int64(c)] = true
+	}
+	for _, fn := range b.srcFuncs(b.Lib) {
+		n, nDelim := 0, 0
+		bad := ""
+		allInstrs(fn, func(i ssa.Instruction) {
+			var x, idx, val ssa.Value
+			switch e := i.(type) {
+			case *ssa.UnOp:
+				ia, ok := e.X.(*ssa.IndexAddr)
+				if !ok || e.Op != token.MUL {
+					return
+				}
+				x, idx, val = ia.X, ia.Index, e
+			case *ssa.Index:
+				x, idx, val = e.X, e.Index, e
+			default:
+				return
+			}
+			if _, isConst := idx.(*ssa.Const); !isConst {
+				return
+			}
+			x = unwrapConv(x)
+			ld, ok := x.(*ssa.UnOp)
+			if !ok || ld.Op != token.MUL || !isPtrToNamed(ld.X.Type(), "RawMessage") {
+				return
+			}
+			nodeV, fr, ok := fieldLoad(ld.X)
+			if !ok || fr.Field != "raw" || fr.Type != "lazyNode" {
+				return
+			}
+			// compared with a byte that can start a JSON value?
+			cmp := false
+			for _, r := range *val.Referrers() {
+				bo, ok := r.(*ssa.BinOp)
+				if !ok || (bo.Op != token.EQL && bo.Op != token.NEQ) {
+					continue
+				}
+				for _, o := range []ssa.Value{bo.X, bo.Y} {
+					if k, ok := intConst(o); ok && structural[k] && feedsBranch(bo, 0) {
+						cmp = true
+					}
+				}
+			}
+			if !cmp {
+				return
+			}
+			n++
+			if call, ok := nodeV.(*ssa.Call); ok {
+				if f := call.Call.StaticCallee(); f != nil && f.Signature.Recv() != nil && isNamed(f.Signature.Recv().Type(), "Operation") {
+					nDelim++
+					return
+				}
+			}
+			bad = fmt.Sprintf("the branch at %s classifies a node by byte %s of its raw text; a node can be built directly over a caller's bytes (%s), and then a well-formed text with leading whitespace is classified differently from the same text without it", b.posOf(i), idx.String(), strings.Join(paddedSites, "; "))
+		})
+		if n == 0 {
+			continue
+		}
+		key := fmt.Sprintf("%s: no branch on a fixed-offset byte of a node's untrimmed text", b.canonFname(fn))
+		switch {
+		case bad != "" && len(paddedSites) > 0:
+			l.add("R-ROOTDISPATCH", b.Name, key, b.rel(fn.Pos()), Violated, bad, true)
+		case bad != "":
+			l.add("R-ROOTDISPATCH", b.Name, key, b.rel(fn.Pos()), Discharged, "no construction site builds a node over caller bytes: every node text is decoder-delimited", true)
+		default:
+			l.add("R-ROOTDISPATCH", b.Name, key, b.rel(fn.Pos()), Discharged, fmt.Sprintf("%d fixed-offset classification(s), each on the value of an operation (delimited by the decoder, no leading whitespace)", nDelim), true)
+		}
+	}
+	l.stat("R-ROOTDISPATCH").Extra["v5_nodes_built_over_caller_bytes"] = paddedSites
 }
 
 // ---- R-WS -------------------------------------------------------------------------
